@@ -308,8 +308,11 @@ static RV call_cat(const RV& a, const RV& b) {
         return own(*a.c | *b.c);
     });
 }
+// (`-arr_cmplx` was ill-formed before /repo commit 34b0f59: `base_array<T> r{_vec}` selected the initializer_list constructor
+// because cmplx_t is constructible from anything; repaired, so both element types go through the real operator-().)
+template<class A> static RV do_neg(const A& a) { return own(-a); }
 static RV call_neg(const RV& a) {
-    return guarded(std::string("neg_") + KN(a.cx), {&a}, [&]() -> RV { return a.cx ? own(-*a.c) : own(-*a.r); });
+    return guarded(std::string("neg_") + KN(a.cx), {&a}, [&]() -> RV { return a.cx ? do_neg(*a.c) : do_neg(*a.r); });
 }
 static RV call_pos(const RV& a) {
     return guarded(std::string("pos_") + KN(a.cx), {&a}, [&]() -> RV { return a.cx ? own(arr_cmplx(+*a.c)) : own(arr_real(+*a.r)); });
@@ -847,17 +850,17 @@ int main(int argc, char** argv) {
     for (int L = 0; L <= 64; ++L)
         for (int r = 0; r < perLen; ++r) {
             const int mode = (r % 4 == 3) ? 1 : 0;
-            run_program(rng, L, mode, mode ? 3 : 6, 6, true, pindex++);
+            run_program(rng, L, mode, mode ? 3 : 6, 6, !a.thorough || r % 3 == 0, pindex++);   // thorough: every third program also goes through CORR
         }
     // lengths sampled up to 1e4: a few through CORR, many through the oracle only
-    const int bigCorr = a.thorough ? 90 : 16, bigOracle = a.thorough ? 1500 : 150;
+    const int bigCorr = a.thorough ? 16 : 8, bigOracle = a.thorough ? 1500 : 150;
     for (int r = 0; r < bigCorr; ++r) run_program(rng, big_len(rng), (r % 4 == 3) ? 1 : 0, 4, 3, true, pindex++);
     for (int r = 0; r < bigOracle; ++r) run_program(rng, big_len(rng), (r % 4 == 3) ? 1 : 0, 6, 5, false, pindex++);
     // scalar operators, builders
-    scalar_cases(rng, a.thorough ? 20000 : 2500);
+    scalar_cases(rng, a.thorough ? 5000 : 2000);
     {
         Gen g{rng};
-        const int reps = a.thorough ? 12 : 2;
+        const int reps = a.thorough ? 4 : 2;
         for (int rep = 0; rep < reps; ++rep)
             for (int n = 0; n <= 64; ++n) {
                 g.mode = (n + rep) % 3 == 2;
@@ -865,7 +868,7 @@ int main(int argc, char** argv) {
                 builder_cases<cmplx_t>(g, rng, n);
                 math_cases(g, rng, n);
             }
-        for (int r = 0; r < (a.thorough ? 12 : 3); ++r) {
+        for (int r = 0; r < (a.thorough ? 5 : 2); ++r) {
             const int n = big_len(rng);
             builder_cases<real_t>(g, rng, n);
             builder_cases<cmplx_t>(g, rng, n);
